@@ -55,7 +55,7 @@ KINDS = [
     (8, r'\bCRASH\b|(?:^|\n)HANG'),
     (9, r'ERROR: AddressSanitizer|ERROR: LeakSanitizer|UndefinedBehaviorSanitizer'),
 ]
-KIND_NAMES = {99: 'test-scaffolding artifact (vsched)', 0: 'none', 1: 'out-of-bounds', 2: 'use-after-free', 3: 'double/invalid free', 4: 'misaligned', 5: 'signed overflow', 6: 'other UB (UBSan)',
+KIND_NAMES = {98: 'unreproducible child crash without report', 99: 'test-scaffolding artifact (vsched)', 10: 'harness lifetime ledger (life.h) imbalance / misuse', 0: 'none', 1: 'out-of-bounds', 2: 'use-after-free', 3: 'double/invalid free', 4: 'misaligned', 5: 'signed overflow', 6: 'other UB (UBSan)',
               7: 'leak (LSan)', 8: 'SEGV/deadly signal under ASan', 9: 'unclassified sanitizer output'}
 
 
@@ -85,8 +85,12 @@ def scaffold_artifact(report):
     already-started thread indexes it in vs::Sched::point -- a race of the scaffolding itself that the slower ASan build
     exposes.  vs::Sched methods touch only the scheduler's own tables (never the address a hook point passes), so such a
     report says nothing about dispenso; it is counted and listed in the evidence, not judged"""
-    m = re.search(r'#0 0x[0-9a-f]+ in (\S+)', report)
-    return bool(m and m.group(1).startswith('vs::Sched::'))
+    first_stack = report.split('\n\n', 1)[0]
+    for fn in re.findall(r'#\d+ 0x[0-9a-f]+ in (\S+)', first_stack):
+        if fn.startswith(('std::', '__gnu_cxx::', '__sanitizer', '__asan', '__interceptor', 'operator new', 'operator delete')):
+            continue            # library frames below the faulting statement (-O0: operator[] etc. are not inlined)
+        return fn.startswith('vs::Sched::')
+    return False
 
 
 def san_env(leaks):
@@ -240,14 +244,72 @@ def gen_timedtask(ctx, exe, n):
     return [C26.line_of(c) for c in cases], {'cases': cases}
 
 
+# ------------------------------------------------------------------------------------------------ harness lifetime ledgers
+# The harnesses count constructions / destructions / misuse of their lifetime-tracked payload (harness/life.h, life_sv.h).  A leaked
+# element that owns no heap memory is invisible to LSan; the model-free part of the owners' executable properties (what their
+# checks fall back to when the Coq judge does not evaluate) is therefore applied to the output of the sanitizer run as well.
+def ledger_smallvec(line, out):
+    C38 = importlib.import_module('C38')
+    p = C38.parse_out(out)
+    if p is None:
+        return 'no result line'
+    f = p['fin_raw']
+    names = ['readdead', 'readmoved', 'dblctor', 'dtordead', 'assigndead', 'misaligned', 'dblfree', 'refmismatch']
+    bad = [n for n, x in zip(names, f[:8]) if x]
+    if f[8] != f[9]:
+        bad.append('constructions %d != destructions %d' % (f[8], f[9]))
+    if f[10] != f[11]:
+        bad.append('blocks allocated %d != freed %d' % (f[10], f[11]))
+    if f[12] or f[13]:
+        bad.append('live objects %d, live blocks %d after every vector was destroyed' % (f[12], f[13]))
+    return '; '.join(bad) or None
+
+
+def ledger_cvec(line, out):
+    C32 = importlib.import_module('C32')
+    p = C32.parse_line(out)
+    if p is None:
+        return 'no result line'
+    f, t = p['final'], p['tail']
+    bad = []
+    if f[0] + f[1] + f[2] != f[5]:
+        bad.append('constructions %d != destructions %d' % (f[0] + f[1] + f[2], f[5]))
+    if f[6] or f[7]:
+        bad.append('live %d / moved-from %d elements after both vectors were destroyed' % (f[6], f[7]))
+    if any(f[8:14]):
+        bad.append('misuse counters e0..e4, misaligned = %s' % f[8:14])
+    if t[1] != t[2]:
+        bad.append('blocks allocated %d != freed %d' % (t[1], t[2]))
+    return '; '.join(bad) or None
+
+
+def ledger_opresult(line, out):
+    """R s1|...|sn # <ledger> ; O ...: last state of the REAL OpResult side: `vars/live,ctors,dtors,errors`"""
+    m = re.match(r'R (.*?) # ', out or '')
+    if not m:
+        return 'no result line'
+    last = m.group(1).split('|')[-1]
+    vs, _, cnt = last.partition('/')
+    try:
+        live, ctors, dtors, errors = [int(x) for x in cnt.split(',')[:4]]
+    except ValueError:
+        return 'unreadable ledger: ' + last[:80]
+    bad = []
+    if errors:
+        bad.append('%d lifetime misuse errors' % errors)
+    if all(v.strip('!') == 'x' for v in vs.split(',')) and (live or ctors != dtors):
+        bad.append('all variables destroyed but live %d, constructions %d, destructions %d' % (live, ctors, dtors))
+    return '; '.join(bad) or None
+
+
 # ------------------------------------------------------------------------------------------------ harness table
 # id = harness id of the san_record; owner flags = what the owning check passes to build_harness (kept, then SAN appended);
 # leaks: LSan at exit (only harnesses that return from main normally); n = (quick, thorough) cases; quick: built in the quick tier
 HARNESSES = [
-    {'id': 2, 'name': 'h_smallvec', 'lib': False, 'flags': [], 'leaks': True, 'gen': gen_smallvec, 'n': (240, 1500), 'quick': True, 'owner': 'C38'},
+    {'id': 2, 'name': 'h_smallvec', 'lib': False, 'flags': [], 'leaks': True, 'ledger': ledger_smallvec, 'gen': gen_smallvec, 'n': (240, 1500), 'quick': True, 'owner': 'C38'},
     {'id': 5, 'name': 'h_arena', 'lib': False, 'flags': [], 'leaks': True, 'gen': gen_arena, 'n': (200, 1500), 'quick': True, 'owner': 'C37'},
-    {'id': 1, 'name': 'h_cvec', 'lib': False, 'flags': ['-Wl,--wrap=free', '-Wl,--wrap=malloc'], 'leaks': True, 'gen': gen_cvec, 'n': (140, 1200), 'quick': True, 'owner': 'C32'},
-    {'id': 3, 'name': 'h_opresult', 'lib': False, 'flags': ['-std=c++17'], 'leaks': True, 'gen': gen_opresult, 'n': (300, 2000), 'quick': True, 'owner': 'C40'},
+    {'id': 1, 'name': 'h_cvec', 'lib': False, 'flags': ['-Wl,--wrap=free', '-Wl,--wrap=malloc'], 'leaks': True, 'ledger': ledger_cvec, 'gen': gen_cvec, 'n': (140, 1200), 'quick': True, 'owner': 'C32'},
+    {'id': 3, 'name': 'h_opresult', 'lib': False, 'flags': ['-std=c++17'], 'leaks': True, 'ledger': ledger_opresult, 'gen': gen_opresult, 'n': (300, 2000), 'quick': True, 'owner': 'C40'},
     {'id': 4, 'name': 'h_oncefn', 'lib': True, 'flags': ['-Wl,--wrap=malloc', '-Wl,--wrap=free'], 'leaks': True, 'gen': gen_oncefn, 'n': (520, 2000), 'quick': True, 'owner': 'C39'},
     {'id': 11, 'name': 'h_timedtask', 'lib': True, 'flags': [], 'leaks': False, 'gen': gen_timedtask, 'n': (100, 1500), 'quick': True, 'owner': 'C26'},
     {'id': 6, 'name': 'h_poolalloc', 'lib': True, 'flags': [], 'leaks': True, 'gen': gen_poolalloc, 'n': (300, 2000), 'quick': False, 'owner': 'C42'},
@@ -307,6 +369,15 @@ def run_sanitized(h, exe, lines, quick):
         if kind == 0:
             if rc != 0:
                 problems.append('%s: rc=%d without a sanitizer report on a shard of %d cases: %s' % (h['name'], rc, len(idxs), out[-200:].replace('\n', ' ')))
+            elif h.get('ledger'):
+                res_lines = [l for l in out.split('\n') if l.strip()]
+                if len(res_lines) != len(idxs):
+                    problems.append('%s: %d result lines for %d cases' % (h['name'], len(res_lines), len(idxs)))
+                else:
+                    for i, o in zip(idxs, res_lines):
+                        what = h['ledger'](lines[i], o)
+                        if what:
+                            records[i] = (10, 'lifetime ledger of the harness: ' + what, o[-1500:], [i])
             continue
         sub = [lines[i] for i in idxs]
         if h['leaks']:
@@ -324,6 +395,15 @@ def run_sanitized(h, exe, lines, quick):
         hit = False
         for j, seg in enumerate(segs):
             kd, sm = classify(seg)
+            if kd == 8 and 'Sanitizer' not in seg:
+                # the child died WITHOUT any sanitizer report (parent's CRASH line only).  Deterministic -> a crash of the real code
+                # (violation); not reproducible in two more runs of the same case -> inconclusive (kind 98: counted, listed, not judged)
+                again = [run_batch(exe, [sub[j]], False, timeout) for _ in range(2)]
+                rep = [a for a in again if a[2] != 0]
+                if rep:
+                    kd, sm, seg = rep[0][2], rep[0][3], rep[0][1]
+                else:
+                    kd, sm = 98, 'child process died without a sanitizer report, not reproducible: ' + sm[:80]
             if kd != 0:
                 hit = True
                 records[idxs[j]] = (kd, sm, seg[-3000:], [idxs[j]])
@@ -478,7 +558,7 @@ def run(ctx):
     for j in jobs:
         if 'error' not in j and j['h']['id'] == H_TIMEDTASK:
             masks = j['meta'].get('masks', {})
-    recs = [(j['h']['id'], kd, masks.get(i, 0) if j['h']['id'] == H_TIMEDTASK else 0) for j, i, kd, _, _, _ in flat if kd != 99]
+    recs = [(j['h']['id'], kd, masks.get(i, 0) if j['h']['id'] == H_TIMEDTASK else 0) for j, i, kd, _, _, _ in flat if kd not in (98, 99)]
     clean_recs = [(h['id'], 0, 0) for h in hs]
     verdict = judge_records(ctx, recs + clean_recs)
     if verdict is None:
@@ -491,6 +571,11 @@ def run(ctx):
         h = j['h']
         ln = j['lines'][i] if len(grp) == 1 else '\n'.join(j['lines'][g] for g in grp)
         cmd = "ASAN_OPTIONS='%s' UBSAN_OPTIONS=print_stacktrace=1 %s <<< '%s'" % (san_env(h['leaks'])['ASAN_OPTIONS'], j['exe'], ln if len(grp) == 1 else '<the case lines, one per line>')
+        if kd == 98:
+            hist['unreproducible_child_crash_without_report'] = hist.get('unreproducible_child_crash_without_report', 0) + 1
+            if len(artifacts) < 6:
+                artifacts.append({'harness': h['name'], 'case': ln[:200], 'report': sm[:300]})
+            continue
         if kd == 99:
             hist['scaffolding_artifact'] += 1
             if len(artifacts) < 4:
